@@ -379,7 +379,7 @@ static void fixed_case(long idx) {
 }
 
 // ------------------------------------------------------------------ case loop
-long verif::verif_ncases(const std::string & tier) { return kFixed + (tier == "thorough" ? 6000 : 700); }
+long verif::verif_ncases(const std::string & tier) { return kFixed + (tier == "thorough" ? 12000 : 2500); }
 
 void verif::verif_case(Rng & rng, long idx, const std::string & tier) {
     if (idx < kFixed) { fixed_case(idx); return; }
